@@ -609,7 +609,8 @@ fn run_batch(c: &mut Ctx, batch: Vec<Pending>, docs: &[Document]) {
             if v.starts_with('!') {
                 let raw = v[1..].to_string();
                 *v = if f == "outl" || f == "dests" || f.starts_with("nd:") || (f == "toc" && (outl_div || p.hazard.any())) { "diverge".into() }
-                     else if raw.starts_with("abort") { "panic@abort:alloc".into() } else { format!("dead:{}", raw) };
+                     else if raw.starts_with("abort") && (f == "pages" || f == "iter" || f == "toc" || f == "text" || f.starts_with("op:")) { "panic@abort:alloc".into() }
+                     else { format!("dead:{}", raw) };
                 c.count(&format!("dead.{}.{}", f.split(':').next().unwrap(), raw.split('_').next().unwrap_or("")));
             }
         }
@@ -625,7 +626,7 @@ fn run_batch(c: &mut Ctx, batch: Vec<Pending>, docs: &[Document]) {
             let qname = match q { "outl" => "get_outlines", "toc" => "get_toc", "dests" | "nd" => "get_named_destinations", "pages" => "get_pages", "iter" => "page_iter.collect",
                 "op" => "get_object_page", "text" => "extract_text", "pi" => "get_page_images", x => x };
             let sig = if let Some(site) = v.strip_prefix("panic@") {
-                if site == "abort:alloc" { "abort:alloc:size_hint".to_string() }
+                if site == "abort:alloc" { format!("abort:alloc:{}", qname) }
                 else if site.starts_with("src/") { format!("panic@{}:{}", site, site_text(site)) } else { format!("panic@{}", site) }
             } else if v == "diverge" {
                 let kind = if q == "dests" || q == "nd" { if p.hazard.kids_cycle { "kids-cycle" } else if p.hazard.explosive { "explosive-dag" } else { "unexplained" } }
@@ -690,11 +691,11 @@ documents in which the independent graph analysis finds Next/First/Kids cycles (
     // ---------------- reference chains around DEREF_LIMIT (dereference: > 128 hops; get_page_contents: < 128)
     let mut batch = vec![]; let mut docs = vec![];
     let lens: Vec<usize> = if c.quick() { vec![1, 2, 126, 127, 128, 129, 130, 131, 200] } else { (1..=140).chain([200, 256, 300]).collect() };
-    for (i, len) in lens.iter().enumerate() {
-        let Some(mut r) = c.case("chains", i as u64) else { continue };
+    for (i, len) in lens.iter().flat_map(|l| [l, l]).enumerate() {
+        let Some(_r) = c.case("chains", i as u64) else { continue };
         // 100+len .. 101 form a chain of `len` references ending in the page 3 / in a content stream 50
         let mut doc = mini(vec![], vec![(50, stream(Dictionary::new(), CONTENT))]);
-        let end = if r.chance(1, 2) { (3, 0) } else { (50, 0) };
+        let end = if i % 2 == 0 { (3, 0) } else { (50, 0) };
         for k in 1..=*len { doc.objects.insert((100 + k as u32, 0), rf(if k == 1 { end } else { (100 + k as u32 - 1, 0) })); }
         let top = (100 + *len as u32, 0);
         doc.objects.insert((3, 0), Object::Dictionary(dict(vec![("Type", name("Page")), ("Parent", rf((2, 0))), ("Contents", rf(if end == (50, 0) { top } else { (50, 0) })),
@@ -779,12 +780,12 @@ fn known_streams(c: &mut Ctx) {
     // ---------------- attacker-chosen Count in Pages nodes (F-C13-f*)
     const B12: i64 = 768614336404564649; // largest Count for which (Count+1)*12 <= isize::MAX
     const B8: i64 = 1152921504606846974; // same for 8-byte elements
-    let specials: [i64; 14] = [1 << 36, 1 << 40, 1 << 59, 1 << 60, 1 << 62, i64::MAX, B12 - 1, B12, B12 + 1, B8 - 1, B8, B8 + 1, i64::MAX - 1, 1 << 50];
+    let specials: [i64; 17] = [-1, -5, i64::MIN, 1 << 36, 1 << 40, 1 << 59, 1 << 60, 1 << 62, i64::MAX, B12 - 1, B12, B12 + 1, B8 - 1, B8, B8 + 1, i64::MAX - 1, 1 << 50];
     let mut batch = vec![]; let mut docs = vec![];
-    for i in 0..c.n(16, 120) {
+    for i in 0..c.n(19, 120) {
         let Some(mut r) = c.case("count", i) else { continue };
         let k = if (i as usize) < specials.len() { 1 } else { 1 + r.usize(4) };
-        let counts: Vec<i64> = if i == 14 || i == 15 { vec![i64::MAX, i64::MAX, if i == 14 { 1 } else { 2 }] } else { (0..k).map(|j| if (i as usize) < specials.len() && j == 0 { specials[i as usize] } else if r.chance(1, 4) { r.range(-5, 5) } else { *r.pick(&specials) }).collect() };
+        let counts: Vec<i64> = if i == 17 || i == 18 { vec![i64::MAX, i64::MAX, if i == 17 { 1 } else { 2 }] } else { (0..k).map(|j| if (i as usize) < specials.len() && j == 0 { specials[i as usize] } else if r.chance(1, 4) { r.range(-5, 5) } else { *r.pick(&specials) }).collect() };
         let doc = count_doc(&counts);
         let targets = vec![(3, 0)];
         let hz = analyse(&doc, &targets);
